@@ -258,8 +258,48 @@ func init() {
 					probs = append(probs, "document-count argument is "+exprSig(a2, 0)+", not len(s.results)")
 				}
 				// cardinality of the bitmap handed to writePostings
-				card, ok := c.traceParamUp(a1).(*ssa.Call)
-				if !ok || card.Call.StaticCallee() == nil || card.Call.StaticCallee().Name() != "GetCardinality" || !c.reachesWritePostings(card.Parent(), card.Call.Args[0], 0) {
+				cardV := c.traceParamUp(a1)
+				card, ok := cardV.(*ssa.Call)
+				viaStruct := false
+				if !ok {
+					// the per-term inputs gathered in a struct that a helper returns: the cardinality field
+					// is GetCardinality() of the bitmap stored in another field of the same struct, and that
+					// field is what reaches writePostings here
+					if ts, isCall := c.throughStruct(cardV).(*ssa.Call); isCall && ts.Call.StaticCallee() != nil && ts.Call.StaticCallee().Name() == "GetCardinality" {
+						bmSig := exprSig(ts.Call.Args[0], 0)
+						helper := ts.Parent()
+						bmField := -1
+						for _, hb := range helper.Blocks {
+							for _, hi := range hb.Instrs {
+								if st, isSt := hi.(*ssa.Store); isSt {
+									if fa, isFA := st.Addr.(*ssa.FieldAddr); isFA && exprSig(st.Val, 0) == bmSig {
+										bmField = fa.Field
+									}
+								}
+							}
+						}
+						if ld, isLd := cardV.(*ssa.UnOp); isLd && bmField >= 0 {
+							if cfa, isFA := ld.X.(*ssa.FieldAddr); isFA {
+								for _, fb := range cfa.Parent().Blocks {
+									for _, fi := range fb.Instrs {
+										if l2, isL2 := fi.(*ssa.UnOp); isL2 && l2.Op == token.MUL {
+											if fa2, isFA2 := l2.X.(*ssa.FieldAddr); isFA2 && fa2.X == cfa.X && fa2.Field == bmField && c.reachesWritePostings(cfa.Parent(), l2, 0) {
+												viaStruct = true
+											}
+											// (another load of the same field is what is handed on)
+											if fa2, isFA2 := l2.X.(*ssa.FieldAddr); isFA2 && fa2.X == cfa.X && fa2.Field == bmField && c.placeReachesWritePostings(cfa.Parent(), l2) {
+												viaStruct = true
+											}
+										}
+									}
+								}
+							}
+						}
+					}
+				}
+				if viaStruct {
+					// agreed through the struct
+				} else if !ok || card.Call.StaticCallee() == nil || card.Call.StaticCallee().Name() != "GetCardinality" || !c.reachesWritePostings(card.Parent(), card.Call.Args[0], 0) {
 					probs = append(probs, "cardinality argument is not GetCardinality() of the bitmap that writePostings serialises")
 				}
 				probs = append(probs, bothEncodersResized(fn, call)...)
@@ -517,7 +557,15 @@ func init() {
 										continue
 									}
 									sc := ci.Common().StaticCallee()
-									if sc == nil || !c.inRoot(sc) || sc.Blocks == nil || len(ci.Common().Args) == 0 || ci.Common().Args[0] != ssa.Value(fn.Params[0]) {
+									if sc == nil || !c.inRoot(sc) || sc.Blocks == nil || len(ci.Common().Args) == 0 {
+										continue
+									}
+									// a method of the coder, or of a struct it holds by value (c.chunks.start(chunk))
+									onCoder := ci.Common().Args[0] == ssa.Value(fn.Params[0])
+									if fa, isFA := ci.Common().Args[0].(*ssa.FieldAddr); isFA && fa.X == ssa.Value(fn.Params[0]) {
+										onCoder = true
+									}
+									if !onCoder {
 										continue
 									}
 									for ai, a := range ci.Common().Args {
@@ -706,10 +754,51 @@ func init() {
 		Run: func(c *Ctx, scope string, r *Report) {
 			// convert
 			fn := c.MustFn("(*interim).convert")
-			gdf := callsOf(fn, "(*interim).getOrDefineField")
 			key := fnName(fn) + "/id-first"
-			if len(gdf) > 0 && exprSig(gdf[0].Call.Args[1], 0) == `"_id"` && gdf[0].Block() == fn.Blocks[0] {
-				r.ok(key, fnName(fn), c.pos(gdf[0].Pos()), "the first field defined is \"_id\"")
+			// the first thing that can define a field - in convert or in the helpers it starts with
+			// (collectFields(); assignFieldIDs(); ...) - is the direct definition of "_id"
+			var firstDef func(f *ssa.Function, depth int) (ssa.Instruction, bool)
+			definesViaClosure := func(call *ssa.Call) bool {
+				for _, a := range call.Call.Args {
+					for {
+						if ct, ok := a.(*ssa.ChangeType); ok {
+							a = ct.X
+							continue
+						}
+						break
+					}
+					if mc, ok := a.(*ssa.MakeClosure); ok {
+						if lit, ok := mc.Fn.(*ssa.Function); ok && len(callsOf(lit, "(*interim).getOrDefineField")) > 0 {
+							return true
+						}
+					}
+				}
+				return false
+			}
+			firstDef = func(f *ssa.Function, depth int) (ssa.Instruction, bool) {
+				for bi, b := range f.Blocks {
+					for _, ins := range b.Instrs {
+						call, ok := ins.(*ssa.Call)
+						if !ok {
+							continue
+						}
+						if sc := call.Call.StaticCallee(); sc != nil && fnName(sc) == "(*interim).getOrDefineField" {
+							return call, bi == 0 && exprSig(call.Call.Args[1], 0) == `"_id"`
+						}
+						if definesViaClosure(call) {
+							return call, false
+						}
+						if sc := call.Call.StaticCallee(); sc != nil && c.inRoot(sc) && sc.Blocks != nil && depth < 2 && len(call.Call.Args) > 0 && call.Call.Args[0] == ssa.Value(f.Params[0]) && sc.Signature.Recv() != nil {
+							if ev, good := firstDef(sc, depth+1); ev != nil {
+								return ev, good && bi == 0
+							}
+						}
+					}
+				}
+				return nil, false
+			}
+			if ev, good := firstDef(fn, 0); ev != nil && good {
+				r.ok(key, fnName(fn), c.pos(ev.Pos()), "the first field defined is \"_id\"")
 			} else {
 				r.bad(key, fnName(fn), c.pos(fn.Pos()), "convert does not define \"_id\" as the first field")
 			}
@@ -736,7 +825,7 @@ func init() {
 				} else {
 					r.bad(key, fnName(fn), c.pos(fn.Pos()), "the field names are not sorted from index 1 (keeping _id first)")
 				}
-				if fnName(fn) == "(*interim).convert" && sortCall != nil {
+				if (fnName(fn) == "(*interim).convert" || convertSortSite != nil && what == "s.FieldsInv") && sortCall != nil {
 					// FieldsMap rebuilt after the sort, before prepareDicts
 					key := fnName(fn) + "/map-rebuilt"
 					rebuilt := false
@@ -750,14 +839,38 @@ func init() {
 						}
 					}
 					pd := callsOf(fn, "(*interim).prepareDicts")
-					if rebuilt && len(pd) == 1 && before(sortCall, pd[0]) {
+					if convertSortSite != nil {
+						// sorted and rebuilt in a helper: the helper is called before prepareDicts in convert
+						cvf := c.MustFn("(*interim).convert")
+						pd = callsOf(cvf, "(*interim).prepareDicts")
+						if rebuilt && len(pd) == 1 && before(convertSortSite, pd[0]) {
+							r.ok(key, fnName(fn), c.pos(sortCall.Pos()), "FieldsMap is rebuilt (id+1) from the sorted names before prepareDicts")
+						} else {
+							r.bad(key, fnName(fn), c.pos(sortCall.Pos()), "the name→id map is not rebuilt from the sorted field list before the dictionaries are prepared")
+						}
+					} else if rebuilt && len(pd) == 1 && before(sortCall, pd[0]) {
 						r.ok(key, fnName(fn), c.pos(sortCall.Pos()), "FieldsMap is rebuilt (id+1) from the sorted names before prepareDicts")
 					} else {
 						r.bad(key, fnName(fn), c.pos(sortCall.Pos()), "the name→id map is not rebuilt from the sorted field list before the dictionaries are prepared")
 					}
 				}
 			}
-			checkSort(fn, "s.FieldsInv")
+			// (the sort and the rebuild of the map may sit in a helper that convert starts with)
+			sortFn := fn
+			var sortSite ssa.Instruction
+			if len(callsOfFull(fn, "sort.Strings")) == 0 || !sortsFromOne(fn) {
+				for _, b := range fn.Blocks {
+					for _, ins := range b.Instrs {
+						if call, ok := ins.(*ssa.Call); ok {
+							if sc := call.Call.StaticCallee(); sc != nil && c.inRoot(sc) && sc.Blocks != nil && sortsFromOne(sc) && sortSite == nil {
+								sortFn, sortSite = sc, call
+							}
+						}
+					}
+				}
+			}
+			convertSortSite = sortSite
+			checkSort(sortFn, "s.FieldsInv")
 			mf := c.MustFn("mergeFields")
 			// (the union of the field names may be built in a helper mergeFields is split into)
 			if len(callsOfFull(mf, "sort.Strings")) == 0 {
@@ -1186,16 +1299,79 @@ func init() {
 					}
 				}
 			}
+			// ... or which field of an options struct handed to it
+			var sameField *types.Var
 			if same == nil {
-				r.bad(fnName(fn)+"/fieldsSame-source", fnName(fn), c.pos(fn.Pos()), "mergeStoredAndRemap is not given the first result of mergeFields (the fields-are-identical verdict)")
-			} else {
+				for _, site := range c.callsTo(fn) {
+					if site.Parent() != mtw {
+						continue
+					}
+					for _, a := range site.Common().Args {
+						var cell *ssa.Alloc
+						switch x := a.(type) {
+						case *ssa.Alloc:
+							cell = x
+						case *ssa.UnOp:
+							if al, ok := x.X.(*ssa.Alloc); ok && x.Op == token.MUL {
+								cell = al
+							}
+						}
+						if cell == nil || cell.Referrers() == nil {
+							continue
+						}
+						for _, ref := range *cell.Referrers() {
+							fa, ok := ref.(*ssa.FieldAddr)
+							if !ok || fa.Referrers() == nil {
+								continue
+							}
+							for _, fr := range *fa.Referrers() {
+								st, ok := fr.(*ssa.Store)
+								if !ok || st.Addr != ssa.Value(fa) {
+									continue
+								}
+								if ex, ok := st.Val.(*ssa.Extract); ok && ex.Index == 0 {
+									if call, ok := ex.Tuple.(*ssa.Call); ok && call.Call.StaticCallee() != nil && fnName(call.Call.StaticCallee()) == "mergeFields" {
+										_, sameField = fieldAddrInfo(fa)
+									}
+								}
+							}
+						}
+					}
+				}
+			}
+			isSame := func(v ssa.Value) bool {
+				if same != nil && v == ssa.Value(same) {
+					return true
+				}
+				if sameField == nil {
+					return false
+				}
+				switch x := v.(type) {
+				case *ssa.UnOp:
+					if fa, ok := x.X.(*ssa.FieldAddr); ok && x.Op == token.MUL {
+						_, fv := fieldAddrInfo(fa)
+						return fv == sameField
+					}
+				case *ssa.Field:
+					if st, ok := x.X.Type().Underlying().(*types.Struct); ok && x.Field < st.NumFields() {
+						return st.Field(x.Field) == sameField
+					}
+				}
+				return false
+			}
+			switch {
+			case same != nil:
 				r.ok(fnName(fn)+"/fieldsSame-source", fnName(fn), c.pos(fn.Pos()), "parameter "+same.Name()+" is mergeFields' verdict")
+			case sameField != nil:
+				r.ok(fnName(fn)+"/fieldsSame-source", fnName(fn), c.pos(fn.Pos()), "field ."+sameField.Name()+" of the options handed in is mergeFields' verdict")
+			default:
+				r.bad(fnName(fn)+"/fieldsSame-source", fnName(fn), c.pos(fn.Pos()), "mergeStoredAndRemap is not given the first result of mergeFields (the fields-are-identical verdict)")
 			}
 			if len(calls) != 1 {
 				r.undecided(key, fnName(fn), c.pos(fn.Pos()), "copyStoredDocs call not found")
-			} else if same != nil {
+			} else if same != nil || sameField != nil {
 				// the drops bitmap of the segment being copied: drops[segI] with seg = segments[segI] the call's receiver
-				isDrops := func(v ssa.Value) bool {
+				isDropsHere := func(v ssa.Value) bool {
 					ld, ok := v.(*ssa.UnOp)
 					if !ok || ld.Op != token.MUL {
 						return false
@@ -1203,12 +1379,28 @@ func init() {
 					ia, ok := ld.X.(*ssa.IndexAddr)
 					return ok && ia.X == ssa.Value(fn.Params[1])
 				}
+				// the same bitmap as a parameter of a predicate it is handed to
+				dropsParam := map[ssa.Value]bool{}
+				for _, b := range fn.Blocks {
+					for _, ins := range b.Instrs {
+						if call, ok := ins.(*ssa.Call); ok {
+							if sc := call.Call.StaticCallee(); sc != nil && c.inRoot(sc) && sc.Blocks != nil {
+								for ai, a := range call.Call.Args {
+									if isDropsHere(a) && ai < len(sc.Params) {
+										dropsParam[sc.Params[ai]] = true
+									}
+								}
+							}
+						}
+					}
+				}
+				isDrops := func(v ssa.Value) bool { return isDropsHere(v) || dropsParam[v] }
 				isCard := func(v ssa.Value) bool {
 					call, ok := v.(*ssa.Call)
 					return ok && call.Call.StaticCallee() != nil && call.Call.StaticCallee().Name() == "GetCardinality" && isDrops(call.Call.Args[0])
 				}
 				atoms := func(v ssa.Value) (int, bool, bool) {
-					if v == ssa.Value(same) {
+					if isSame(v) {
 						return 0, false, true
 					}
 					if neg, ok := cmpNilAtom(v, isDrops); ok {
@@ -1222,7 +1414,7 @@ func init() {
 					}
 					return 0, false, false
 				}
-				be := &boolExec{fn: fn, atoms: atoms, n: 3}
+				be := &boolExec{fn: fn, atoms: atoms, n: 3, inline: true}
 				ok, cex, n := be.impliedAt(calls[0].Block(), func(asg uint) bool {
 					return asg&1 != 0 && (asg&2 != 0 || asg&4 != 0)
 				})
@@ -1562,9 +1754,10 @@ func bothEncodersResized(fn *ssa.Function, gcs *ssa.Call) []string {
 // activeSet: the result of one setupActiveForField call - five parallel
 // slices, returned as separate results or as the fields of one object.
 type activeSet struct {
-	call *ssa.Call
-	obj  ssa.Value
-	c    *Ctx
+	call  *ssa.Call
+	obj   ssa.Value
+	cells map[ssa.Value]bool // local cells the object (returned by value) is kept in
+	c     *Ctx
 }
 
 func newActiveSet(call *ssa.Call) *activeSet {
@@ -1576,6 +1769,18 @@ func newActiveSet(call *ssa.Call) *activeSet {
 		}
 		if _, ok := t.Underlying().(*types.Struct); ok {
 			a.obj = ex
+			if ex.Referrers() != nil {
+				for _, ref := range *ex.Referrers() {
+					if st, ok := ref.(*ssa.Store); ok && st.Val == ssa.Value(ex) {
+						if cell, ok := st.Addr.(*ssa.Alloc); ok {
+							if a.cells == nil {
+								a.cells = map[ssa.Value]bool{}
+							}
+							a.cells[cell] = true
+						}
+					}
+				}
+			}
 		}
 	}
 	return a
@@ -1586,7 +1791,10 @@ func (a *activeSet) role(v ssa.Value) string {
 	if v == nil {
 		return ""
 	}
-	if a.obj != nil && v == a.obj {
+	if a.obj != nil && (v == a.obj || a.cells[v]) {
+		return "set"
+	}
+	if ld, ok := v.(*ssa.UnOp); ok && ld.Op == token.MUL && a.cells[ld.X] {
 		return "set"
 	}
 	if p, ok := v.(*ssa.Parameter); ok && a.c != nil {
@@ -1604,7 +1812,7 @@ func (a *activeSet) role(v ssa.Value) string {
 			}
 		}
 	case *ssa.UnOp:
-		if fa, ok := x.X.(*ssa.FieldAddr); ok && x.Op == token.MUL && a.obj != nil && fa.X == a.obj {
+		if fa, ok := x.X.(*ssa.FieldAddr); ok && x.Op == token.MUL && a.obj != nil && (fa.X == a.obj || a.cells[fa.X]) {
 			return x.Type().String()
 		}
 	case *ssa.Field:
@@ -1890,4 +2098,32 @@ func stagedLocations(fn *ssa.Function, tub *ssa.Call) (bool, string) {
 		}
 	}
 	return n > 0, ""
+}
+
+var convertSortSite ssa.Instruction
+
+// sortsFromOne: fn calls sort.Strings(x[1:]).
+func sortsFromOne(fn *ssa.Function) bool {
+	for _, call := range callsOfFull(fn, "sort.Strings") {
+		if sl, isSl := call.Call.Args[0].(*ssa.Slice); isSl {
+			if k, isK := constInt(sl.Low); isK && k == 1 && sl.High == nil {
+				return true
+			}
+		}
+	}
+	return false
+}
+
+// placeReachesWritePostings: some load of the same place as ld is the bitmap
+// argument of writePostings (directly or through helpers).
+func (c *Ctx) placeReachesWritePostings(fn *ssa.Function, ld *ssa.UnOp) bool {
+	want := accessPath(ld)
+	for _, b := range fn.Blocks {
+		for _, ins := range b.Instrs {
+			if l2, ok := ins.(*ssa.UnOp); ok && l2.Op == token.MUL && accessPath(l2) == want && c.reachesWritePostings(fn, l2, 0) {
+				return true
+			}
+		}
+	}
+	return false
 }
